@@ -157,6 +157,7 @@ def run_once(case):
     # formatted input came out as (the monitors need the formatted keys)
     ctx2, inc2, opaque2 = build(case)
     canon2 = pv.Canon(opaque2)
+    canon_log = pv.Canon(opaque2)
     real = ctx2.get_formatted_value
     log = []
 
@@ -169,7 +170,7 @@ def run_once(case):
             hashable = False
         if is_cyclic(out):
             return out
-        a, b = canon2(value), canon2(out)
+        a, b = canon_log(value), canon_log(out)
         if not any(pv.pv_equal(a, x) and pv.pv_equal(b, y) for x, y, _ in log):
             log.append([a, b, hashable])
         return out
